@@ -82,6 +82,19 @@ pub fn kind_extended() -> impl Strategy<Value = OpKind> {
         1 => Just(OpKind::SockOpt),
         1 => Just(OpKind::Statx),
         1 => any::<bool>().prop_map(|v6| OpKind::Connect { v6 }),
+        3 => kind_args(),
+    ]
+}
+
+/// Operations with non-default arguments (flags, offsets): a re-issue has to
+/// repeat them.
+pub fn kind_args() -> impl Strategy<Value = OpKind> {
+    let off = prop_oneof![3 => 0u32..100_000, 1 => any::<u32>()];
+    prop_oneof![
+        3 => (1u16..3000, 0u8..16).prop_map(|(cap, flags)| OpKind::Recv { cap, flags }),
+        2 => (1u16..3000, 0u8..16).prop_map(|(len, flags)| OpKind::Send { len, flags }),
+        2 => (1u16..3000, off.clone()).prop_map(|(cap, off)| OpKind::ReadAt { cap, off }),
+        2 => (1u16..3000, off).prop_map(|(len, off)| OpKind::WriteAt { len, off }),
     ]
 }
 
